@@ -131,7 +131,50 @@ func extractScanTable(p *Program) (*scanTable, error) {
 					}
 				}
 			}
+			// `case "recv", "receive":` – the block is entered over the true edge of either
+			// comparison, so no single fact holds in it: read the words off the entering edges
+			var words []string
+			if !wordSeen {
+				seenB := map[*ssa.BasicBlock]bool{}
+				var into func(b *ssa.BasicBlock)
+				into = func(b *ssa.BasicBlock) {
+					if seenB[b] {
+						return
+					}
+					seenB[b] = true
+					for _, pr := range b.Preds {
+						ins := view.Instrs(pr)
+						if len(ins) == 0 {
+							continue
+						}
+						switch last := ins[len(ins)-1].(type) {
+						case *ssa.If:
+							bo, ok := last.Cond.(*ssa.BinOp)
+							if !ok || bo.Op != token.EQL || pr.Succs[0] != b {
+								continue
+							}
+							if c, ok := bo.Y.(*ssa.Const); ok && c.Value != nil && c.Value.Kind() == constant.String {
+								words = append(words, constant.StringVal(c.Value))
+							}
+						case *ssa.Jump:
+							if len(ins) == 1 {
+								into(pr)
+							}
+						}
+					}
+				}
+				if len(s.b.Preds) > 1 {
+					into(s.b)
+				}
+				if len(words) != len(s.b.Preds) {
+					words = nil // some way in is not a word comparison
+				}
+			}
 			switch {
+			case len(words) > 0:
+				for _, w := range words {
+					st.Keywords[w] = name
+				}
 			case wordSeen:
 				st.Keywords[word] = name
 			case len(first) == 1 && len(second) == 1:
